@@ -5,8 +5,9 @@
   answer  : {"check":bool,                 checkReplace blk callee args
              "diff":string|null,           first pair of statements that do not match (diagnosis)
              "obligations":[expr..],       predsObligationsD decl callee args (export_ir format)
-             "size","shape","preds"        the same obligations by kind (0 < size argument; extent of
-                                           the actual == declared extent; instantiated assertions)
+             "size","bounds","shape","preds"   the same obligations by kind (0 < size argument; window
+                                           inside the caller's buffer; extent of the actual ==
+                                           declared extent; instantiated assertions)
              "inline":[stmt..]|null,       the statements the model of DoInline produces
              "inlineWf":bool}              well-formedness hypothesis of `inline_correct_partial`
 -/
@@ -86,10 +87,12 @@ def handle (line : String) : Json :=
       let (oSize, oShape, oPred) := match mkSubst f.args args [] with
         | some θ => (sizeObl f.args args, shapeObl θ decl f.args args, predObl θ f.preds)
         | none => ([], [], [])
+      let oBounds := boundsObl decl args
       let inl := inline f args
       let js := fun (l : List Expr) => Json.arr (l.map exprJ).toArray
       pure (Json.mkObj [("check", .bool ok), ("diff", diff),
-        ("obligations", js obls), ("size", js oSize), ("shape", js oShape), ("preds", js oPred),
+        ("obligations", js obls), ("size", js oSize), ("bounds", js oBounds),
+        ("shape", js oShape), ("preds", js oPred),
         ("inline", match inl with | some b => .arr (b.map stmtJ).toArray | none => Json.null),
         ("inlineWf", .bool (inlineWf f args))]) : P Json) with
     | .ok r => r
